@@ -115,14 +115,16 @@ func (p *Processor) Run(ctx context.Context) error {
 					continue
 				}
 
+				// A failed segment ends this polling cycle for the partition: processing
+				// a later segment would commit an offset past records never written.
 				state, err := p.store.LoadOffset(ctx, seg.Topic, seg.Partition)
 				if err != nil {
-					continue
+					break
 				}
 
 				batches, err := p.decode.Decode(ctx, seg.SegmentKey, seg.IndexKey)
 				if err != nil {
-					continue
+					break
 				}
 
 				records := mapBatches(batches)
@@ -141,7 +143,7 @@ func (p *Processor) Run(ctx context.Context) error {
 				err = p.sink.Write(ctx, records)
 				unlock()
 				if err != nil {
-					continue
+					break
 				}
 
 				last := records[len(records)-1]
